@@ -320,7 +320,9 @@ static char *fd_path_alloc(int fd);
 /* absolute, lexically normalised path of (dirfd, path); malloc'ed */
 static char *abs_path(int dirfd, const char *path) {
     char buf[PATH_MAX * 2];
-    if (!path) path = "";
+    /* an empty path names nothing (the kernel answers ENOENT; the AT_EMPTY_PATH callers resolve the descriptor
+       themselves and never come here): it must not be taken for the directory it would be relative to */
+    if (!path || !*path) return xstrdup("/.simfs-empty-path");
     if (path[0] == '/') {
         snprintf(buf, sizeof buf, "%s", path);
     } else if (dirfd == AT_FDCWD) {
